@@ -80,6 +80,16 @@ def c05_images(ctx, rng, for_search=False):
     quick = ctx.quick
     imgs = G.hostile(rng, quick) + more_hostile(rng, quick) + compressible_big(rng, quick)
     imgs += G.repeated_structures(rng, quick, short=not for_search)
+    # the optional follow-on structures of each layout (GPT header + entries, VHD dynamic header, qcow2 tables ...),
+    # clean and with a few fields made hostile, followed by some data
+    for fmt in G.FORMATS:
+        for base in G.sweep_bases(fmt)[1:]:
+            tail = 70000 if not for_search else 2 * G.bound(fmt)
+            bounds = [e for _, a, b in base.ranges for e in (a, b)]
+            imgs.append(G.Img(fmt, base.stream(None, tail), bounds, 'followon/%s/clean' % base.name))
+            fields = list(base.fields())
+            for part, off, v in rng.sample(fields, 4 if quick else 16):
+                imgs.append(G.Img(fmt, base.stream((part, off, v), tail), bounds, 'followon/%s/%s+%d=%s' % (base.name, part, off, v.hex())))
     if not quick or for_search:
         imgs += G.big_streams(rng, quick=True)[:9]          # incompressible text / random data
     for fmt in G.FORMATS:
@@ -259,8 +269,13 @@ SCREEN_TAIL = 64 * G.K
 
 
 def field_sweep(ctx, rng, fails, full):
-    """generic hostile family: for every format the clean image with each 4-byte-aligned field of its header
-    structures overwritten, one at a time, by 0 / 0xFFFFFFF8 / 0x00100000 / 0xFFFFFFFF (both byte orders),
+    """generic hostile family: for every format the clean image - and a plausible instance of the optional
+    structures that follow it in the format's layout (GPT header + entry array, VHD dynamic header + BAT, qcow2
+    tables + header extensions, VDI block map, LUKS key slots, ISO path tables + root directory) - with each
+    4-byte-aligned field of its header structures overwritten, one at a time, by 0 / 0xFFFFFFF8 / 0x00100000 /
+    0xFFFFFFFF (both byte orders), and on the length / count / offset carrying structures also by structured
+    values (small counts, powers of two, multiples of 128 / 512 / 4096, 2^k - 128 ...) and by count x size
+    pairs written over two adjacent fields,
     followed by a tail longer than the bound, under {one giant chunk, 64 KiB chunks, 512 bytes then the rest}.
     Every (field, value) pair is first screened with a 64 KiB tail (cheap): a pair that makes the inspector
     retain noticeably more than the clean image does, or announce an out-of-range region length, always gets the
@@ -274,7 +289,7 @@ def field_sweep(ctx, rng, fails, full):
             clean = base.stream(None, SCREEN_TAIL)
             clean_peak = {tag: peak_of(fmt, clean, sz)[0] for tag, sz in shapes(len(clean))[:2]}
             flagged, plain = [], []
-            for field in base.fields():
+            for field in base.fields(structured_everywhere=full or not ctx.quick):
                 data = base.stream(field, SCREEN_TAIL)
                 hit = False
                 for tag, sz in shapes(len(data))[:2]:
